@@ -87,6 +87,20 @@ fn main() {
                     gen_serve::gen_c06(&mut rng.fork(), false, &mut emit_serve);
                     gen_serve::gen_c07(&mut rng, false, &mut emit_serve);
                     gen_serve::gen_chunkings(&mut rng, false, &mut emit_serve);
+                    // the streaming body kind: hints and the flag sampled after every operation
+                    drop(emit_serve);
+                    let mut k = 0u64;
+                    let mut emit_stream = |c: stream_engine::StreamCase| {
+                        let o = stream_engine::run(&c);
+                        let id = format!("{}-S{}", prop, k);
+                        k += 1;
+                        let v = val::Val::L(vec![o.input, o.obs]);
+                        writeln!(cases, "stream {} {}", id, v.to_string()).unwrap();
+                        writeln!(meta, "{}\t{}\t", id, c.class.replace('\t', " ").replace('\n', " ")).unwrap();
+                    };
+                    gen_stream::gen_random(&mut rng, if thorough { 20000 } else { 2500 }, false, false, &mut emit_stream);
+                    gen_stream::gen_random(&mut rng, if thorough { 20000 } else { 2500 }, true, false, &mut emit_stream);
+                    gen_stream::gen_random(&mut rng, if thorough { 5000 } else { 500 }, true, true, &mut emit_stream);
                 }
                 "C13" => gen_serve::gen_mixed(&mut rng, n_mixed * 3, "c13", &mut emit_serve),
                 "C14" => {
